@@ -760,103 +760,182 @@ func (c *Ctx) teardownFacts(ls *Locksets) *teardownFacts {
 			}
 			return
 		}
-		// a drainer: go f(queues..., done)
-		g := in.(*ssa.Go)
-		callee := cc.StaticCallee()
-		if callee == nil || callee.Blocks == nil {
-			return
-		}
-		// callee: a loop around a blocking select whose recv states are parameters/freevars
-		var sel *ssa.Select
-		funcInstrs(callee, func(x ssa.Instruction) {
-			if s, ok := x.(*ssa.Select); ok && s.Blocking && c.LoopDepth(s.Block()) >= 1 {
-				sel = s
+		// a drainer started directly: go f(queues..., done)
+		c.drainerAt(tf, in.(*ssa.Go), in)
+	})
+	if tf.drainerGo == nil {
+		// ... or by a helper the teardown calls before Wait, which starts it on every path
+		funcInstrs(td, func(in ssa.Instruction) {
+			call, ok := in.(*ssa.Call)
+			if !ok || tf.drainerGo != nil || !instrDominates(in, tf.wait) {
+				return
 			}
-		})
-		if sel == nil {
-			return
-		}
-		var doneCh ssa.Value
-		for i, st := range sel.States {
-			if st.Dir != types.RecvOnly {
-				continue
+			h := call.Call.StaticCallee()
+			if h == nil || call.Call.IsInvoke() || !c.InModuleFn(h) || h.Package() != c.Client {
+				return
 			}
-			// which argument feeds this channel?
-			var fields map[*types.Var]bool
-			var other []ssa.Value
-			fields, other = c.OriginFields(st.Chan)
-			if len(other) == 0 {
-				for fv := range fields {
-					if fv == a.In || fv == a.Out {
-						// the case must loop back (keep receiving)
-						if blk := selectCaseBlock(sel, i); blk != nil {
-							back := false
-							for x := range ReachFrom(blk.Instrs[0], true, nil) {
-								if x == ssa.Instruction(sel) {
-									back = true
-								}
-							}
-							if back {
-								tf.drains[fv] = true
-							}
-						}
-					}
+			funcInstrs(h, func(x ssa.Instruction) {
+				g, isGo := x.(*ssa.Go)
+				if !isGo || tf.drainerGo != nil {
+					return
 				}
-				continue
-			}
-			// a local channel made in the teardown: the stop signal
-			for _, o := range other {
-				if mk, ok := o.(*ssa.MakeChan); ok && mk.Parent() == td {
-					doneCh = mk
-					// the done case must leave the loop (return)
-					if blk := selectCaseBlock(sel, i); blk != nil {
-						rets := false
-						for x := range ReachFrom(blk.Instrs[0], true, func(y ssa.Instruction) bool { return y == ssa.Instruction(sel) }) {
-							if isReturn(x) {
-								rets = true
-							}
-						}
-						if !rets {
-							doneCh = nil
-						}
-					}
-				}
-			}
-		}
-		if len(tf.drains) > 0 && doneCh != nil {
-			tf.drainerGo = g
-			// the stop signal (close/send on doneCh) happens only after Wait, on every path to return
-			stopAfter, stopBefore := false, false
-			funcInstrs(td, func(x ssa.Instruction) {
-				for _, op := range ChanOps(td) {
-					if op.In == x && (op.Kind == "close" || op.Kind == "send") && op.Chan == doneCh {
-						if instrDominates(tf.wait, x) {
-							stopAfter = true
-						} else {
-							stopBefore = true
-						}
-					}
+				if all, _ := AllPathsFromEntryPass(h, func(y ssa.Instruction) bool { return y == x }); all {
+					c.drainerAt(tf, g, in)
 				}
 			})
-			if stopAfter && !stopBefore {
-				ok, _ := AllPathsPass(g, false, func(x ssa.Instruction) bool {
-					for _, op := range ChanOps(td) {
-						if op.In == x && (op.Kind == "close" || op.Kind == "send") && op.Chan == doneCh {
+		})
+	}
+	return tf
+}
+
+// drainerAt examines the goroutine started at g (in the teardown itself or in
+// a helper the teardown calls at start, before Wait): a loop around a blocking
+// select that keeps receiving from the connection queues and leaves on a stop
+// channel, which the teardown signals only after Wait and on every path.
+func (c *Ctx) drainerAt(tf *teardownFacts, g *ssa.Go, start ssa.Instruction) {
+	a := c.A
+	td := a.TeardownCore
+	callee := g.Call.StaticCallee()
+	if callee == nil || callee.Blocks == nil {
+		return
+	}
+	var sel *ssa.Select
+	funcInstrs(callee, func(x ssa.Instruction) {
+		if s, ok := x.(*ssa.Select); ok && s.Blocking && c.LoopDepth(s.Block()) >= 1 {
+			sel = s
+		}
+	})
+	if sel == nil {
+		return
+	}
+	drains := map[*types.Var]bool{}
+	var doneCh *ssa.MakeChan
+	for i, st := range sel.States {
+		if st.Dir != types.RecvOnly {
+			continue
+		}
+		fields, other := c.OriginFields(st.Chan)
+		if len(other) == 0 {
+			for fv := range fields {
+				if fv == a.In || fv == a.Out {
+					// the case must loop back (keep receiving)
+					if blk := selectCaseBlock(sel, i); blk != nil {
+						for x := range ReachFrom(blk.Instrs[0], true, nil) {
+							if x == ssa.Instruction(sel) {
+								drains[fv] = true
+							}
+						}
+					}
+				}
+			}
+			continue
+		}
+		// a channel made by the teardown (or its start helper): the stop signal
+		for _, o := range other {
+			mk, ok := o.(*ssa.MakeChan)
+			if !ok || (mk.Parent() != td && mk.Parent() != g.Parent()) {
+				continue
+			}
+			if blk := selectCaseBlock(sel, i); blk != nil {
+				for x := range ReachFrom(blk.Instrs[0], true, func(y ssa.Instruction) bool { return y == ssa.Instruction(sel) }) {
+					if isReturn(x) {
+						doneCh = mk
+					}
+				}
+			}
+		}
+	}
+	if len(drains) == 0 || doneCh == nil {
+		return
+	}
+	// stop events in the teardown: close/send on the stop channel, or a call of a stop function the start
+	// helper returned (a closure that closes the channel on every path)
+	closesDone := func(fn *ssa.Function, ch ssa.Value) bool {
+		ok, _ := AllPathsFromEntryPass(fn, func(x ssa.Instruction) bool {
+			for _, op := range ChanOps(fn) {
+				if op.In == x && (op.Kind == "close" || op.Kind == "send") {
+					for _, o := range c.Origins(op.Chan) {
+						if o == ch {
 							return true
 						}
 					}
-					return false
+				}
+			}
+			return false
+		})
+		return ok
+	}
+	isStop := func(x ssa.Instruction) bool {
+		for _, op := range ChanOps(td) {
+			if op.In == x && (op.Kind == "close" || op.Kind == "send") {
+				for _, o := range c.Origins(op.Chan) {
+					if o == ssa.Value(doneCh) {
+						return true
+					}
+				}
+			}
+		}
+		call, ok := x.(*ssa.Call)
+		if !ok || call.Call.IsInvoke() || call.Call.StaticCallee() != nil {
+			return false
+		}
+		if _, isB := call.Call.Value.(*ssa.Builtin); isB {
+			return false
+		}
+		// dynamic call of a value produced by the start helper
+		for _, o := range c.Origins(call.Call.Value) {
+			var hc *ssa.Call
+			idx := 0
+			switch t := o.(type) {
+			case *ssa.Call:
+				hc = t
+			case *ssa.Extract:
+				hc, _ = t.Tuple.(*ssa.Call)
+				idx = t.Index
+			}
+			if hc == nil || ssa.Instruction(hc) != start {
+				return false
+			}
+			h := hc.Call.StaticCallee()
+			good := h != nil
+			if h != nil {
+				funcInstrs(h, func(y ssa.Instruction) {
+					rt, isR := y.(*ssa.Return)
+					if !isR || idx >= len(rt.Results) {
+						return
+					}
+					mc, isMC := retVal(rt, idx).(*ssa.MakeClosure)
+					if !isMC {
+						good = false
+						return
+					}
+					if f, isF := mc.Fn.(*ssa.Function); !isF || !closesDone(f, doneCh) {
+						good = false
+					}
 				})
-				tf.drainerStops = ok
 			}
-			if !stopAfter || stopBefore {
-				tf.drains = map[*types.Var]bool{}
+			if !good {
+				return false
 			}
-		} else {
-			tf.drains = map[*types.Var]bool{}
+		}
+		return true
+	}
+	tf.drainerGo = g
+	stopAfter, stopBefore := false, false
+	funcInstrs(td, func(x ssa.Instruction) {
+		if isStop(x) {
+			if instrDominates(tf.wait, x) {
+				stopAfter = true
+			} else {
+				stopBefore = true
+			}
 		}
 	})
-	return tf
+	if stopAfter && !stopBefore {
+		tf.drains = drains
+		ok, _ := AllPathsPass(start, false, isStop)
+		tf.drainerStops = ok
+	}
 }
 
 func runC07(c *Ctx) {
